@@ -1,5 +1,6 @@
 import PybropsModel.J
 import PybropsModel.Model.Program
+import PybropsModel.Model.ProgramSym
 import PybropsModel.Generated.C20Schedule
 open Lean
 
@@ -14,11 +15,15 @@ Driver ops of C20.
 namespace Drv.C20
 open Program
 
-abbrev V := List Int
+/-- data of a cell: a container is a dict cell (no data) holding a reference to a list cell whose data
+    are the integers the Python stubs see under the key "h" -/
+abbrev D := List Int
+abbrev V := View D
 
-/-- one scripted call: in-place mutations of the handed containers (append a token), then what is
-    returned: the `j`-th handed container or a new container with the given content -/
-inductive Sel | arg (j : Nat) | new (c : V)
+/-- one scripted call: in-place mutations of the handed containers (append a token to the list
+    below the dict, creating it if absent), then what is returned: the `j`-th handed container or a
+    new container with the given content -/
+inductive Sel | arg (j : Nat) | new (c : D)
 
 structure Action where
   kind : String                 -- "op:pselect", "log:mate", "init", …: which call consumes it
@@ -27,15 +32,29 @@ structure Action where
 
 abbrev Script := List Action
 
-def applyMuts (h : Heap V) (args : List Ref) (muts : List (Option Int)) : Heap V :=
+/-- `o.setdefault("h", []).append(x)` -/
+def appendTo (h : Heap (Cell D)) (a : Ref) (x : Int) : Heap (Cell D) :=
+  match h[a]? with
+  | none => h
+  | some c =>
+    match c.refs with
+    | r :: _ =>
+      match h[r]? with
+      | some l => h.set r { l with data := l.data ++ [x] }
+      | none => h
+    | [] => (h ++ [({ data := [x], refs := [] } : Cell D)]).set a { c with refs := [h.length] }
+
+def applyMuts (h : Heap (Cell D)) (args : List Ref) (muts : List (Option Int)) : Heap (Cell D) :=
   (List.zip args muts).foldl (fun h p => match p.2 with
-    | some x => if p.1 < h.length then h.set p.1 (h.getD p.1 [] ++ [x]) else h
+    | some x => appendTo h p.1 x
     | none => h) h
 
-def applyRets (h : Heap V) (args : List Ref) : List Sel → Heap V × List Ref
+def applyRets (h : Heap (Cell D)) (args : List Ref) : List Sel → Heap (Cell D) × List Ref
   | [] => (h, [])
   | .arg j :: rest => let r := applyRets h args rest; (r.1, args.getD j 0 :: r.2)
-  | .new c :: rest => let r := applyRets (h ++ [c]) args rest; (r.1, h.length :: r.2)
+  | .new c :: rest =>
+    let r := applyRets (h ++ [({ data := [], refs := [h.length + 1] } : Cell D), { data := c, refs := [] }]) args rest
+    (r.1, h.length :: r.2)
 
 def defaultRets (k : OpK) : List Sel :=
   match k with
@@ -56,7 +75,7 @@ def logKindStr : LogK → String
   | .initialize => "log:initialize" | .pselect => "log:pselect" | .mate => "log:mate"
   | .evaluate => "log:evaluate" | .sselect => "log:sselect"
 
-def scripted : Ops Script V where
+def scripted : Ops Script D where
   op := fun k σ h args _ _ =>
     match takeAction (opKindStr k) σ with
     | (none, σ') => let r := applyRets h args (defaultRets k); (σ', r.1, r.2)
@@ -104,8 +123,11 @@ def decKind (s : String) : J.R EvKind :=
   | some k => pure k
   | none => J.fail s!"unknown event kind {s}"
 
-def encVal : Option V → Json := J.ofOpt (J.ofList J.ofInt)
-def decVal : Json → J.R (Option V) := J.opt (J.list J.int)
+/-- what the Python stubs see of a container: the integers of the list below the dict -/
+def encVal : Option V → Json :=
+  J.ofOpt (fun v => J.ofList J.ofInt ((v.filter (fun p => p.1 == 1)).flatMap (fun p => p.2)))
+def decVal : Json → J.R (Option V) :=
+  J.opt (fun j => do let l ← J.list J.int j; pure [(0, []), (1, l)])
 
 def encEvent (e : Event V) : Json :=
   J.obj [("kind", J.ofStr (kindStr e.kind)), ("t", J.ofNat e.t), ("tmax", J.ofNat e.tmax),
@@ -121,28 +143,41 @@ def decEvent (j : Json) : J.R (Event V) := do
          retVals := ← J.field j "retVals" (J.list decVal),
          startVals := ← J.field j "startVals" (J.list decVal) }
 
-structure Run where
-  nrep : Nat
-  ngen : Nat
-  loginit : Bool
+/-- one API call on the programme object -/
+inductive CallJ
+  | evolve (nrep : Nat) (ngen : Option Nat) (loginit : Bool)
+  | reset
+  | advance (ngen : Option Nat)
 
-def decRun (j : Json) : J.R Run := do
-  pure ⟨← J.field j "nrep" J.nat, ← J.field j "ngen" J.nat, ← J.field j "loginit" J.bool⟩
+def decCall (j : Json) : J.R CallJ := do
+  match ← J.field j "m" J.str with
+  | "evolve" => pure (.evolve (← J.field j "nrep" J.nat) (← J.fieldOpt j "ngen" J.nat) (← J.field j "loginit" J.bool))
+  | "reset" => pure .reset
+  | "advance" => pure (.advance (← J.fieldOpt j "ngen" J.nat))
+  | m => J.fail s!"unknown call {m}"
 
-/-- run the successive `evolve` calls; one answer object per call -/
-def runAll (sc : Schedule) (tmax : Nat) : List Run → State Script V → List Json
+def runCall (sc : Schedule) (tmax : Nat) (c : CallJ) (st : State Script D) : State Script D :=
+  match c with
+  | .evolve nrep ngen li => evolve scripted ⟨nrep, ngen, tmax, li, [], 1⟩ sc st
+  | .reset => resetCall scripted ⟨0, none, tmax, true, [], 1⟩ sc st
+  | .advance ngen => advanceCall scripted ⟨0, ngen, tmax, true, [], 1⟩ sc st
+
+/-- run the successive API calls; one answer object per call (stops after a call that raises) -/
+def runAll (sc : Schedule) (tmax : Nat) : List CallJ → State Script D → List Json
   | [], _ => []
-  | r :: rs, st =>
-    let cfg : Cfg V := ⟨r.nrep, r.ngen, tmax, r.loginit, []⟩
+  | c :: cs, st =>
     let st0 := { st with trace := [] }
-    let st1 := evolve scripted cfg sc st0
+    let st1 := runCall sc tmax c st0
+    let work := five.map st1.regs
     J.obj [("trace", J.ofList encEvent st1.trace), ("bad", J.ofBool st1.bad),
            ("start_before", J.ofList (J.ofOpt J.ofNat) st.start),
            ("start_after", J.ofList (J.ofOpt J.ofNat) st1.start),
-           ("startVals_after", J.ofList encVal (startVals st1.heap st1.start)),
+           ("startVals_after", J.ofList encVal (startVals 1 st1.heap st1.start)),
+           ("work", J.ofList (J.ofOpt J.ofNat) work),
+           ("workVals", J.ofList encVal (startVals 1 st1.heap work)),
            ("rep", J.ofInt st1.rep), ("t", J.ofNat st1.t),
            ("script_left", J.ofNat st1.ost.length)]
-      :: (if st1.bad then [] else runAll sc tmax rs st1)
+      :: (if st1.bad then [] else runAll sc tmax cs st1)
 
 def opRun : J.Op := fun j => do
   let cells ← J.field j "cells" (J.list (J.list J.int))
@@ -150,13 +185,20 @@ def opRun : J.Op := fun j => do
   let tmax ← J.field j "tmax" J.nat
   let rep0 ← J.field j "rep0" J.int
   let script ← J.field j "script" (J.list decAction)
-  let runs ← J.field j "runs" (J.list decRun)
+  let calls ← J.field j "calls" (J.list decCall)
   let canon ← J.fieldD j "canonical" J.bool false
-  let st : State Script V :=
-    { heap := cells, regs := fun _ => none, start := start, t := 0, rep := rep0, ost := script,
-      trace := [], bad := false }
+  let share ← J.fieldD j "share" (J.list (J.list J.nat)) []
+  -- container i = dict cell 2i holding a reference to its list cell 2i+1, or (shared) to the list of j
+  let innerOf (i : Nat) : Nat := match share.find? (fun p => p.head? == some i) with
+    | some [_, k] => k
+    | _ => i
+  let heap : Heap (Cell D) := cells.zipIdx.flatMap (fun p =>
+    [({ data := [], refs := [2 * innerOf p.2 + 1] } : Cell D), { data := p.1, refs := [] }])
+  let st : State Script D :=
+    { heap := heap, n0 := heap.length, regs := fun _ => none, start := start.map (fun o => o.map (2 * ·)),
+      t := 0, rep := rep0, ngen := none, ost := script, trace := [], bad := false }
   let sc := if canon then Program.canonical else C20Schedule.evolve
-  pure <| J.obj [("runs", Json.arr (runAll sc tmax runs st).toArray)]
+  pure <| J.obj [("calls", Json.arr (runAll sc tmax calls st).toArray)]
 
 /-! diagnostics for a rejected trace (not part of the Spec) -/
 
@@ -215,11 +257,45 @@ def opSpec : J.Op := fun j => do
   pure <| J.obj [("ok", J.ofBool (spec && afterOk)),
                  ("detail", J.ofStr s!"specTrace={spec} identity_wiring={strict} start_after_unchanged={afterOk}{why}")]
 
+def decItems (j : Json) : J.R (List (Item V)) := do
+  let ids ← J.field j "cur" (J.list J.nat)
+  let vs ← J.field j "curVals" (J.list decVal)
+  pure (items ids vs)
+
+/-- Spec of a direct `advance(ngen)` call -/
+def opSpecAdvance : J.Op := fun j => do
+  let ngen ← J.field j "ngen" J.nat
+  let t0 ← J.field j "t0" J.nat
+  let v0 ← J.field j "V0" (J.list decVal)
+  let cur ← decItems j
+  let trace ← J.field j "trace" (J.list decEvent)
+  let after ← J.field j "startVals_after" (J.list decVal)
+  let spec := specAdvance sameOrEqual ngen t0 v0 cur trace
+  let strict := specAdvance sameRef ngen t0 v0 cur trace
+  let afterOk := after == v0
+  pure <| J.obj [("ok", J.ofBool (spec && afterOk)),
+                 ("detail", J.ofStr s!"specAdvance={spec} identity_wiring={strict} start_after_unchanged={afterOk}")]
+
+/-- Spec of a direct `reset()` call: working containers equal the initial state, clock 0,
+    start containers untouched -/
+def opSpecReset : J.Op := fun j => do
+  let v0 ← J.field j "V0" (J.list decVal)
+  let work ← J.field j "workVals" (J.list decVal)
+  let t ← J.field j "t" J.nat
+  let after ← J.field j "startVals_after" (J.list decVal)
+  let ok := work == v0 && t == 0 && after == v0 && v0.length == 5 && v0.all Option.isSome
+  pure <| J.obj [("ok", J.ofBool ok),
+                 ("detail", J.ofStr s!"working_equals_initial={work == v0} clock_zero={t == 0} start_after_unchanged={after == v0}")]
+
 def opSchedule : J.Op := fun _ =>
   pure <| J.obj [("wellformed", J.ofBool (WellFormed C20Schedule.evolve)),
+                 ("handles_none", J.ofBool (HandlesNone C20Schedule.evolve)),
+                 ("wf_reset", J.ofBool (wfReset C20Schedule.evolve)),
+                 ("parts", J.ofStr s!"pre={wfPre C20Schedule.evolve} empty={wfEmpty C20Schedule.evolve} gen={wfGen C20Schedule.evolve} rep={wfRep C20Schedule.evolve}"),
                  ("schedule", J.ofStr (toString (repr C20Schedule.evolve)))]
 
 def ops : List (String × J.Op) :=
-  [("c20.run", opRun), ("c20.spec", opSpec), ("c20.schedule", opSchedule)]
+  [("c20.run", opRun), ("c20.spec", opSpec), ("c20.spec_advance", opSpecAdvance),
+   ("c20.spec_reset", opSpecReset), ("c20.schedule", opSchedule)]
 
 end Drv.C20
